@@ -296,7 +296,7 @@ def check_datasets(c, io):
 
 class C06(Prop):
     id = "C06"
-    theorems = ["align_strict_spec", "align_strict_refuses", "commonAxis_fold_labels", "mem_union1d", "nodup_union1d", "union_mem", "union_nodup", "intersection_mem", "intersection_nodup",
+    theorems = ["align_strict_spec", "align_strict_refuses", "commonAxis_fold_labels", "commonAxis_fold_sorted", "commonAxis_direction_counterexample", "union_sorted_decreasing", "union_sorted_increasing_gen", "commonAxis_outer_induct", "kindsClosed_same", "kindsClosed_numeric", "mem_union1d", "nodup_union1d", "union_mem", "union_nodup", "intersection_mem", "intersection_nodup",
                 "intersection_sublist", "union_sorted_increasing", "commonAxis_outer_mem", "commonAxis_outer_nodup",
                 "castKind_table_agrees", "castKind_table_lossless", "castKind_table_complete", "align_axis_spec", "align_axis_labels", "align_all_spec", "align_all_labels", "align_succeeds"]
     rule = ("lists of 1-4 arrays over a pool of 1-3 dimensions with arbitrary overlap and order of dimensions; per-"
